@@ -136,10 +136,13 @@ class DashTiming:
             'elapsed_fragments=%d',
             self.elapsedTime.total_seconds() * self.stream_reference.timescale //
             self.stream_reference.segment_duration)
-        if self.elapsedTime.total_seconds() == 0:
-            logging.info('Elapsed time is zero, moving availabilityStartTime back one day')
-            self.elapsedTime = datetime.timedelta(days=1)
-            self.availabilityStartTime -= self.elapsedTime
+        if self.elapsedTime <= datetime.timedelta(0):
+            # also covers a requested start that lies in the future, which
+            # would give a negative elapsed time and buffer depth
+            logging.info('Elapsed time is not positive, moving availabilityStartTime back by whole days')
+            days = 1 + (-self.elapsedTime) // one_day
+            self.availabilityStartTime -= days * one_day
+            self.elapsedTime = now - self.availabilityStartTime
         if self.elapsedTime.total_seconds() < self.timeShiftBufferDepth:
             self.timeShiftBufferDepth = int(self.elapsedTime.total_seconds())
         logging.debug('timeShiftBufferDepth: %d seconds', self.timeShiftBufferDepth)
